@@ -23,6 +23,15 @@ def main():
     muts = []
     for f in sorted(glob.glob(os.path.join(VERIF, "vf", "mutants", "*.json"))):
         muts.extend(json.load(open(f)))
+    # the independently seeded changes stored under /verif/seeded are replayed like mutants (applied with patch(1) to the scratch copy)
+    for d in sorted(glob.glob(os.path.join(VERIF, "seeded", "*"))):
+        mp = os.path.join(d, "meta.json")
+        if not os.path.exists(mp) or not os.path.exists(os.path.join(d, "patch.diff")):
+            continue
+        meta = json.load(open(mp))
+        cb = meta.get("checks", {}).get("caught_by") or []
+        muts.append({"id": "seed:" + os.path.basename(d), "property": meta["property"], "patch": os.path.join(d, "patch.diff"),
+                     "rule": (cb[0] if cb and cb[0] != "-" else ""), "not_claimed": cb == ["-"]})
     if sel:
         muts = [m for m in muts if m["id"] in sel or m["property"] in sel]
     scratch = tempfile.mkdtemp(prefix="roto-mut-", dir=os.environ.get("TMPDIR", "/tmp"))
@@ -31,6 +40,33 @@ def main():
         subprocess.check_call(["rsync", "-a", "--exclude", "target", "--exclude", ".git", "/repo/", scratch + "/"])
         results = []
         for m in muts:
+            if m.get("patch"):
+                pr = subprocess.run(["patch", "-p1", "-s", "--no-backup-if-mismatch", "-d", scratch, "-i", m["patch"]],
+                                    stdout=subprocess.PIPE, stderr=subprocess.STDOUT, text=True)
+                if pr.returncode != 0:
+                    subprocess.run(["patch", "-p1", "-s", "-R", "--no-backup-if-mismatch", "-d", scratch, "-i", m["patch"]], stdout=subprocess.DEVNULL, stderr=subprocess.DEVNULL)
+                    subprocess.check_call(["rsync", "-a", "--exclude", "target", "--exclude", ".git", "/repo/src/", scratch + "/src/"])
+                    results.append((m["id"], "N/A", pr.stdout[-200:]))
+                    print("%-28s N/A (patch does not apply)" % m["id"])
+                    continue
+                env = dict(os.environ, VERIF_REPO=scratch, VERIF_EVIDENCE_DIR=evdir)
+                r = subprocess.run([os.path.join(VERIF, "check"), m["property"]], env=env, stdout=subprocess.PIPE, stderr=subprocess.STDOUT, text=True)
+                subprocess.run(["patch", "-p1", "-s", "-R", "--no-backup-if-mismatch", "-d", scratch, "-i", m["patch"]], stdout=subprocess.DEVNULL, stderr=subprocess.DEVNULL)
+                out = r.stdout
+                if m.get("not_claimed"):
+                    verdict = "NOT-CLAIMED" if r.returncode == 0 else "KILLED (recorded as not claimed)"
+                elif r.returncode == 2:
+                    verdict = "BROKEN (does not compile / engine error)"
+                elif r.returncode == 1 and "VIOLATION" in out:
+                    verdict = "KILLED"
+                else:
+                    verdict = "SURVIVED"
+                lines = [l for l in out.splitlines() if l.startswith("  ") and " %s." % m["property"] in l][:1]
+                results.append((m["id"], verdict, lines))
+                print("%-28s %s" % (m["id"], verdict))
+                for l in lines:
+                    print("      " + l.strip()[:220])
+                continue
             edits = m.get("edits") or [{"file": m["file"], "old": m["old"], "new": m["new"]}]
             saved = {}
             bad = None
@@ -71,11 +107,12 @@ def main():
         killed = sum(1 for r in results if r[1].startswith("KILLED"))
         print("mutants: %d, killed: %d, survived: %d, n/a or broken: %d" % (
             len(results), killed, sum(1 for r in results if r[1] == "SURVIVED"),
-            sum(1 for r in results if r[1] not in ("SURVIVED",) and not r[1].startswith("KILLED"))))
+            sum(1 for r in results if r[1] not in ("SURVIVED", "NOT-CLAIMED") and not r[1].startswith("KILLED"))))
         if as_json:
             print(json.dumps({"selftest": {"mutants": len(results), "killed": killed,
                                            "survived": [r[0] for r in results if r[1] == "SURVIVED"],
-                                           "not_applicable_or_broken": [r[0] for r in results if r[1] != "SURVIVED" and not r[1].startswith("KILLED")],
+                                           "not_applicable_or_broken": [r[0] for r in results if r[1] not in ("SURVIVED", "NOT-CLAIMED") and not r[1].startswith("KILLED")],
+                                           "seeded_changes_not_claimed": [r[0] for r in results if r[1] == "NOT-CLAIMED"],
                                            "ids": [r[0] for r in results]}}))
         return 0 if all(r[1] != "SURVIVED" for r in results) else 1
     finally:
